@@ -1,4 +1,5 @@
-(* engine c09: the extracted copy / cgnsdiff model (coq/Copy.v) driven by a world description.
+(* engine c09: the extracted copy / cgnsdiff model (coq/Copy.v, version Cur = the code of /repo now) driven by a world
+   description.
 
    input (one item per line, names / labels / types / paths / data as lowercase hex, "-" = empty):
      F <file> <adf|hdf5>                          begin the definition of a file (its root is the back end's new root)
@@ -91,14 +92,14 @@ let run () =
              w := set_file !w f (with_kids (new_root h) ks); cur := None
          | None -> print_string "badline\n")
     | ["copy"; src; dst; be; follow] ->
-        let r = do_copy_file fuel !w (bytes_of_hex src) (bytes_of_hex dst) (be = "hdf5") (follow = "1") in
+        let r = do_copy_file Cur fuel !w (bytes_of_hex src) (bytes_of_hex dst) (be = "hdf5") (follow = "1") in
         print_string "B copy\n";
         (match r with
          | Ok w' -> w := w'; (match get_file w' (bytes_of_hex dst) with Some r -> dump_kids "" (kids_of r) | None -> ())
          | _ -> ());
         Stdlib.Printf.printf "E %s\n" (status r)
     | ["rewrite"; src; fn; be] ->
-        let r = rewrite_file fuel !w (bytes_of_hex src) (bytes_of_hex fn) (be = "hdf5") in
+        let r = rewrite_file Cur fuel !w (bytes_of_hex src) (bytes_of_hex fn) (be = "hdf5") in
         print_string "B rewrite\n";
         (match r with
          | Ok w' -> w := w'; (match get_file w' (bytes_of_hex fn) with Some r -> dump_kids "" (kids_of r) | None -> ())
@@ -118,7 +119,7 @@ let run () =
          | None -> print_string "E err\n")
     | ["diff"; f1; f2; d; fl] ->
         print_string "B diff\n";
-        Stdlib.List.iter print_dline (cgnsdiff (d = "1") (fl = "1") !w !w fuel (bytes_of_hex f1) (bytes_of_hex f2));
+        Stdlib.List.iter print_dline (cgnsdiff Cur (d = "1") (fl = "1") !w !w fuel (bytes_of_hex f1) (bytes_of_hex f2));
         print_string "E diff\n"
     | [""] -> ()
     | _ -> if Stdlib.String.length line > 0 && line.[0] = '#' then () else Stdlib.Printf.printf "badline %s\n" line
